@@ -55,6 +55,15 @@ def both_modes(fn, target, nodeset, what, case, stats):
     except Exception as e:  # noqa
         raise Violation(f"failfast-foreign-exception:{type(e).__name__}@{frame_of(e)}",
                         f"{what} raised {type(e).__name__}: {e}", case)
+    try:
+        fn(target, [])          # a fresh, EMPTY list is a list too: nothing may be raised
+    except Timeout:
+        raise Violation("non-termination:" + what, "collecting call exceeded the watchdog", case)
+    except RecursionError:
+        raise
+    except Exception as e:  # noqa
+        raise Violation(f"collecting-raised:{type(e).__name__}@{frame_of(e)}",
+                        f"{what} with an empty error list raised {type(e).__name__}: {e}", case)
     errs = [SENTINEL]
     try:
         fn(target, errs)
